@@ -322,9 +322,66 @@ def r06d(ctx, rep, cr):
     rep.floor('R06d', 'dense scoring calls in search bodies', n, 6)
 
 
+def r06e(ctx, rep, cr):
+    rep.rule('R06e', 'node ids and keys stay in step: the index builder pushes one key per vector it hands to insert_with_strategy, and the '
+                     'node id an HNSW insert returns is its position — so (a) insert_with_strategy cannot return without an '
+                     'HNSWIndex::insert* call on any arm of the strategy dispatch, and (b) in every VectorEngine body that pushes onto a key '
+                     'list next to an insert (build_hnsw_index_with_options), no loop iteration pushes a key without passing the insert or '
+                     'inserts without pushing. A vector that is silently left out of the index shifts every later key by one: searches '
+                     'report other keys, with scores that are not theirs')
+    INS = ('re', r'HNSWIndex::insert\w*$')
+    f = rep.require_fn('R06e', cr, 'vector_engine::insert_with_strategy')
+    n = 0
+    if f is not None:
+        rep.analysed(f)
+        n += 1
+        ins = A.calls_to(f, INS)
+        R = A.reachable(f, [0], cut_blocks={c.bb for c in ins})
+        if not ins or any(r in R for r in A.return_blocks(f)):
+            rep.violation('R06e', f, 'return-without-insert', f.loc(),
+                          'insert_with_strategy can return without inserting the vector, while its callers push the key for it: the key '
+                          'list and the node ids drift apart')
+        else:
+            rep.holds('R06e', f, 'every arm inserts', '%d insert call(s)' % len(ins))
+    for name, g in sorted(cr.fns.items()):
+        if not name.startswith(VE) or '{closure' in name:
+            continue
+        iw = A.calls_to(g, ('re', r'vector_engine::insert_with_strategy$')) + A.calls_to(g, INS)
+        if not iw:
+            continue
+        defs = A.Defs(g)
+        pushes = [c for c in A.calls(g) if re.search(r'Vec::<T, A>::push$', c.generic) and c.arg_local(0) is not None and
+                  any(k == 'key_mapping' and v[0] == A.origin_fields(g, c.arg_local(0), defs)[1] for k, v in g.d['names'].items())]
+        if not pushes:
+            continue
+        dom = A.dominators(g)
+        for k, c in enumerate(pushes):
+            if not any((re.search(r'Iterator>?::next$', x.generic) or re.search(r'Iterator>?::next$', x.resolved)) and x.bb in dom[c.bb] for x in A.calls(g)):
+                continue
+            n += 1
+            rep.analysed(g)
+            mates = [x for x in iw if any((re.search(r'Iterator>?::next$', y.generic) or re.search(r'Iterator>?::next$', y.resolved)) and y.bb in dom[x.bb] and y.bb in dom[c.bb] for y in A.calls(g))]
+            bad = None
+            if not mates:
+                bad = 'a key is pushed in a loop that does not insert'
+            else:
+                # same iteration: neither is reachable from the loop's Some edge with the other one cut … and back to the head
+                for x in mates:
+                    if lib.loop_iterations_skipping(g, x, also=()) is None and lib.loop_iterations_skipping(g, c, also=()) is None:
+                        break
+                else:
+                    bad = 'an iteration can push a key without inserting its vector (or insert without pushing)'
+            if bad:
+                rep.violation('R06e', g, 'key-list-out-of-step', g.loc(c.line), bad)
+            else:
+                rep.holds('R06e', g, 'push#%d' % k, 'every iteration inserts and pushes')
+    rep.floor('R06e', 'insert / key-push sites', n, 2)
+
+
 def run(ctx, rep):
     cr = ctx.crate('vector_engine')
     r06a(ctx, rep, cr)
     r06b(ctx, rep, cr)
     r06c(ctx, rep, cr)
     r06d(ctx, rep, cr)
+    r06e(ctx, rep, cr)
